@@ -129,6 +129,14 @@ SRCB, netaddr/ip/nmap.py -> pysrc_nmap_gen.v (prelude Model/SrcPreludeNmap.v):
   renamed inside the loop (x -> x_for); `a, _ = <list>` ignores the second component.
 * The parsers reached with TEXT arguments are table SRCB_CTOR: for nmap.py IPAddress(text) and inet_pton(AF_INET6) inside
   IPNetwork(text) are `Variable`s of a Section of the generated file (the same two platform parameters as Model/Nmap.v).
+SRCB, netaddr/ip/rfc1924.py -> pysrc_rfc1924_gen.v (prelude Model/SrcPreludeB85.v):
+* `ord(c)` for a character = code c; `chr(i)` = py_chr_o (a one-character str; Unsupported outside 0..255); `range(..)` consumed as a
+  list = py_zrange; `list(s)` = py_str_list; `n * 'c'` = py_str_times; `s1 + s2` = String.append.
+* BASE_85 / BASE_85_DICT are module-level tables whose VALUES harness/gen/codec.py regenerates (UNIT_TABLES: BASE_85 = the list of
+  its one-character strings; SRCB_DICTS: `BASE_85_DICT[k]` = py_b85_dict_get, KeyError).
+* `IPAddress(n)` for an int n (version inferred) = py_ipaddress_of_int (hand model Ip.addr_of_int); `str(ip)` of the IPv6 result is
+  the Section variable addr_str (the formatter is property C01).  FUEL of the `while int_val > 0` loop: 21 (the model's 20 + 1).
+* A `for` variable that the body assigns (`num = BASE_85_DICT[num]`) runs as x_for with `x = x_for` first in the body.
 """
 import ast
 import os
@@ -286,6 +294,9 @@ SRCB_UNITS = [
      [(None, "_nmap_octet_target_values", {"spec": "str"}), (None, "_generate_nmap_octet_ranges", {"nmap_target_spec": "str"}),
       (None, "_parse_nmap_target_spec", {"target_spec": "str"}), (None, "valid_nmap_range", {"target_spec": "str"}),
       (None, "iter_nmap_range", {"nmap_target_spec": "list str"})]),
+    ("netaddr/ip/rfc1924.py", "pysrc_rfc1924_gen.v", "", " Base.PyStr Model.SrcPreludeStr Model.SrcPreludeGlob Model.SrcPreludeB85",
+     [(None, "chr_range", {"low": "char", "high": "char"}), (None, "ipv6_to_base85", {"addr": "int"}),
+      (None, "base85_to_ipv6", {"addr": "str"})]),
 ]
 UNITS += SRCB_UNITS
 FILES = FILES + tuple(u[1] for u in SRCB_UNITS)
@@ -313,11 +324,25 @@ PURE_METHODS = PURE_METHODS + ("split", "join")      # s.split(c) / sep.join(l):
 SRCB_CTOR = {"pysrc_glob_gen.v": {("IPAddress", "str"): "py_ipaddress_of_str", ("IPRange", "str", "str"): "py_iprange_of_strs"},
              "pysrc_nmap_gen.v": {("IPAddress", "str"): "ip_address", ("IPAddress", "str", "4"): "py_ipaddress4_of_str",
                                   ("IPNetwork", "str"): "py_ipnetwork_of_str pton6"}}
+SRCB_CTOR["pysrc_rfc1924_gen.v"] = {("IPAddress", "int"): "py_ipaddress_of_int"}      # IPAddress(n): version inferred (Ip.addr_of_int)
 SRCB_CTOR_KIND = {"IPAddress": "addr", "IPRange": "rng", "IPNetwork": "net"}
+# str(ip) for an IPAddress object: hand model for IPv4 (py_addr_str); for rfc1924.py (IPv6 text, property C01) a parameter
+SRCB_ADDR_STR = {"pysrc_rfc1924_gen.v": ("str", "(addr_str %s)")}
+# module-level tables whose VALUES harness/gen/codec.py regenerates (Gen/codec_gen.v) and checks against each other:
+# BASE_85 as the list of its one-character strings, BASE_85_DICT[k] as a lookup function (KeyError)
+UNIT_TABLES["pysrc_rfc1924_gen.v"] = {"BASE_85": "list str"}
+SRCB_DICTS = {"pysrc_rfc1924_gen.v": {"BASE_85_DICT": ("str", "int", "py_b85_dict_get")}}
+UNIT_PREAMBLE["pysrc_rfc1924_gen.v"] = (
+    "(* str(ip) of the IPv6 IPAddress object base85_to_ipv6 returns: the address formatter (property C01), a parameter *)\n"
+    "Section WithFormatter.\nVariable addr_str : Z * Z -> string.\n")
+# the hand model runs `while int_val > 0` 20 times at most and tests the condition before the fuel; the generated Fixpoint tests
+# the fuel first, so it needs one more unit to see the condition fail
+FUEL[(None, "ipv6_to_base85", 1)] = ("0", 21)
+SRCB_RESERVED |= set("addr_str BASE_85 py_b85_dict_get py_chr_o py_ipaddress_of_int".split())
 UNIT_PREAMBLE["pysrc_nmap_gen.v"] = (
     "(* the platform parsers nmap.py reaches through IPAddress(text) / IPNetwork(text): parameters, as in Model/Nmap.v *)\n"
     "Section WithPlatform.\nVariable pton6 : string -> option Z.\nVariable ip_address : string -> outcome (Z * Z).\n")
-UNIT_POSTAMBLE = {"pysrc_nmap_gen.v": "\nEnd WithPlatform.\n"}
+UNIT_POSTAMBLE = {"pysrc_nmap_gen.v": "\nEnd WithPlatform.\n", "pysrc_rfc1924_gen.v": "\nEnd WithFormatter.\n"}
 SRCB_VALUES = SRCB_VALUES + ("oaddr",)               # `oaddr` = what a generator of IPAddress objects yields: outcome (Z * Z)
 COQTY["oaddr"] = "(outcome (Z * Z))"
 SRCB_RESERVED |= set("pton6 ip_address py_ipaddress4_of_str py_ipnetwork_of_str py_iter_net py_gen_body py_gen_next yielded".split())
@@ -2271,6 +2296,13 @@ class FnB(Fn):
 
     def subscript(self, node, env):
         sl = node.slice
+        dicts = SRCB_DICTS.get(self.tr.out, {})
+        if isinstance(node.value, ast.Name) and node.value.id in dicts and node.value.id not in env and self.mod.toplevel(node.value.id):
+            kty, vty, sym = dicts[node.value.id]                             # D[k] for a regenerated module-level dict: KeyError
+            ty, t = self.ex(sl, env)
+            if ty != kty:
+                bad(node, "%s[%s]" % (node.value.id, show(ty)))
+            return ("out", vty, "(%s %s)" % (sym, t))
         if not isinstance(sl, ast.Slice):
             vty = self.typeof(node.value, env)
             if is_list(vty):                                                 # l[i]: IndexError modelled (py_index)
@@ -2354,6 +2386,8 @@ class FnB(Fn):
                 return ("str", "(fmt_d %s)" % self.int_(node.args[0], env))                   # str(n) = '%d' % n
             if f.id == "str" and ty == "str":
                 return self.ex(node.args[0], env)
+            if f.id == "str" and ty == "addr" and self.tr.out in SRCB_ADDR_STR:
+                return (SRCB_ADDR_STR[self.tr.out][0], SRCB_ADDR_STR[self.tr.out][1] % self.ex(node.args[0], env)[1])
             if f.id == "str" and ty == "addr":
                 return ("out", "str", "(py_addr_str %s)" % self.ex(node.args[0], env)[1])      # str(ip): hand model (SrcPreludeGlob)
             if f.id == "str":
@@ -2372,6 +2406,15 @@ class FnB(Fn):
             finally:
                 self.nohoist -= 1
             return ("bool", "(existsb (fun %s => %s) (chars %s))" % (cn, c, t))
+        if self.builtin_call(node, "ord", env, 1) and self.typeof(node.args[0], env) == "char":
+            return ("int", "(code %s)" % self.ex(node.args[0], env)[1])      # ord(c)
+        if self.builtin_call(node, "chr", env, 1):
+            return ("out", "str", "(py_chr_o %s)" % self.int_(node.args[0], env))   # chr(i), 0 <= i < 256 (else Unsupported)
+        if self.builtin_call(node, "range", env, 1) or self.builtin_call(node, "range", env, 2):
+            a = [self.int_(x, env) for x in node.args]                       # range(..) consumed as a list
+            return (("list", Cell("int")), "(py_zrange %s %s)" % (("0", a[0]) if len(a) == 1 else (a[0], a[1])))
+        if self.builtin_call(node, "list", env, 1) and self.typeof(node.args[0], env) == "str":
+            return (("list", Cell("str")), "(py_str_list %s)" % self.ex(node.args[0], env)[1])      # list(s): its characters
         if self.builtin_call(node, "set", env, 0):
             return (("set", Cell()), "[]")                                   # set(): the empty set (element type found later)
         if self.builtin_call(node, "sorted", env, 1):
@@ -2394,8 +2437,8 @@ class FnB(Fn):
             key = (f.id,) + tuple(("%d" % const_int(x)) if (ty == "int" and const_int(x) is not None) else ty for x, ty in zip(node.args, tys))
             sym = SRCB_CTOR.get(self.tr.out, {}).get(key)
             if sym is not None:                                              # a parser on text: hand-model symbol / platform parameter
-                return ("out", SRCB_CTOR_KIND[f.id], "(%s)" % " ".join([sym] + [self.ex(x, env)[1] for x, ty in zip(node.args, tys) if ty == "str"]))
-            if f.id == "IPRange" or "str" in tys or "addr" in tys:
+                return ("out", SRCB_CTOR_KIND[f.id], "(%s)" % " ".join([sym] + [self.ex(x, env)[1] for x, kk in zip(node.args, key[1:]) if not kk.isdigit()]))
+            if f.id == "IPRange" or "str" in tys or "addr" in tys or self.tr.out in SRCB_CTOR and key[1:] == ("int",):
                 bad(node, "%s(%s)" % (f.id, ", ".join(show(x) for x in tys)))
         if (isinstance(f, ast.Name) and f.id == "_iter_next" and f.id not in env and len(node.args) == 1 and not node.keywords
                 and self.mod.imports.get("_iter_next") == "netaddr.compat._iter_next" and isinstance(node.args[0], ast.Call)):
@@ -2652,6 +2695,27 @@ class FnB(Fn):
         """as Fn.loop; `for i in range(n)` / `range(a, b)` / `_iter_range(a, b)` whose variable IS read runs over the list
         py_zrange a b (the bounds are evaluated once, before the loop).  A loop variable that is mentioned after the loop but
         is dead there (read_first: always written before it is read again) is renamed inside the loop (x -> x_for)."""
+        tg = s.target.elts[1] if (isinstance(s, ast.For) and isinstance(s.target, ast.Tuple) and len(s.target.elts) == 2) else getattr(s, "target", None)
+        if (isinstance(s, ast.For) and isinstance(tg, ast.Name) and ("rebound", id(s)) not in self.renamed and any(
+                isinstance(n, ast.Name) and n.id == tg.id and isinstance(n.ctx, ast.Store) for st in s.body for n in ast.walk(st))):
+            # the loop variable x is assigned in the body: the loop runs over x_for, the body starts with `x = x_for`
+            x = tg.id
+            if id(s) not in self.renamed:
+                if x in env or any(isinstance(n, ast.Name) and n.id == x + "_for" for n in ast.walk(self.f)) or self.read_first(
+                        [st for st in rest + after if st is not s], x)[0]:
+                    bad(s, "loop variable %s is rebound in the body and bound before / read after the loop" % x)
+                import copy
+                s2 = copy.copy(s)
+                s2.target = copy.deepcopy(s.target)
+                t2 = s2.target.elts[1] if isinstance(s2.target, ast.Tuple) else s2.target
+                t2.id = x + "_for"
+                first = ast.copy_location(ast.Assign(targets=[ast.copy_location(ast.Name(id=x, ctx=ast.Store()), tg)],
+                                                     value=ast.copy_location(ast.Name(id=x + "_for", ctx=ast.Load()), tg)), s.body[0])
+                s2.body = [first] + list(s.body)
+                self.loopno[id(s2)] = self.loopno[id(s)]
+                self.renamed[id(s)] = s2
+                self.renamed[("rebound", id(s2))] = True
+            return self.loop(self.renamed[id(s)], rest, env, k, after)
         if (self.isgen and isinstance(s, ast.For) and isinstance(s.target, ast.Name) and not s.orelse and len(s.body) == 1
                 and isinstance(self.yield_value(s.body[0]), ast.Name)
                 and self.yield_value(s.body[0]).id == s.target.id and s.target.id not in env and "yielded" in env
